@@ -21,8 +21,10 @@ import (
 	"github.com/elastos/Elastos.ELA/crypto"
 
 	"verif/blockkit"
+	"verif/chainkit"
 	"verif/evid"
 	"verif/hx"
+	"verif/par"
 )
 
 const height = 7
@@ -32,6 +34,8 @@ type artefact struct {
 	N     int    `json:"n"`
 	What  string `json:"mutation"`
 	Block string `json:"block"` // the block in the repository's wire format
+	// node-tier cases are rebuilt from their indexes
+	NodeCase *nodeReq `json:"node_case,omitempty"`
 }
 
 type checker struct {
@@ -103,7 +107,7 @@ func (k *checker) judge(class, what string, n int, b *types.Block) {
 		got, err := crypto.ComputeRoot(u)
 		k.rootsCompared++
 		if err != nil || [32]byte(got) != blockkit.RefMerkleRoot(ids) {
-			k.r.Violate("C07|merkle-root-differs|crypto.ComputeRoot", fmt.Sprintf("crypto.ComputeRoot differs from the reference merkle root on a list of %d ids (%s)", len(ids), class), artefact{class, n, what, blockHex(b)})
+			k.r.Violate("C07|merkle-root-differs|crypto.ComputeRoot", fmt.Sprintf("crypto.ComputeRoot differs from the reference merkle root on a list of %d ids (%s)", len(ids), class), artefact{Class: class, N: n, What: what, Block: blockHex(b)})
 		}
 	}
 	var key bytes.Buffer
@@ -137,15 +141,15 @@ func (k *checker) judge(class, what string, n int, b *types.Block) {
 	k.byClass[class] = c
 	switch {
 	case site != "":
-		k.r.Violate("C07|panic|"+site, "CheckBlockSanity panicked ("+class+": "+what+")", artefact{class, n, what, blockHex(b)})
+		k.r.Violate("C07|panic|"+site, "CheckBlockSanity panicked ("+class+": "+what+")", artefact{Class: class, N: n, What: what, Block: blockHex(b)})
 	case err == nil && want != "":
-		k.r.Violate("C07|accepted|"+want+"|"+class, fmt.Sprintf("CheckBlockSanity accepts a block that breaks the rule (%s) after mutation %s: %s", want, class, what), artefact{class, n, what, blockHex(b)})
+		k.r.Violate("C07|accepted|"+want+"|"+class, fmt.Sprintf("CheckBlockSanity accepts a block that breaks the rule (%s) after mutation %s: %s", want, class, what), artefact{Class: class, N: n, What: what, Block: blockHex(b)})
 	case err != nil && want == "" && class == "valid":
-		k.r.Violate("C07|valid-block-rejected", "CheckBlockSanity rejects a well-formed block: "+err.Error(), artefact{class, n, what, blockHex(b)})
+		k.r.Violate("C07|valid-block-rejected", "CheckBlockSanity rejects a well-formed block: "+err.Error(), artefact{Class: class, N: n, What: what, Block: blockHex(b)})
 	case err != nil && want == "":
 		// a mutation that left an acceptable block (e.g. header resealed over a still well-formed
 		// list) must be accepted as well, otherwise the rule is not what decides
-		k.r.Violate("C07|acceptable-block-rejected|"+class, "CheckBlockSanity rejects a block that satisfies the rule ("+what+"): "+err.Error(), artefact{class, n, what, blockHex(b)})
+		k.r.Violate("C07|acceptable-block-rejected|"+class, "CheckBlockSanity rejects a block that satisfies the rule ("+what+"): "+err.Error(), artefact{Class: class, N: n, What: what, Block: blockHex(b)})
 	}
 }
 
@@ -291,6 +295,9 @@ func (k *checker) explore(n, variant int) {
 }
 
 func main() {
+	if chainkit.Serve(serveNode) {
+		return
+	}
 	r := evid.Start("C07", "exploration")
 	scr := evid.Scratch("c07")
 	hx.QuietLogs(scr)
@@ -303,6 +310,19 @@ func main() {
 	if r.Replay != "" {
 		var a artefact
 		sig := r.LoadReplay(&a)
+		if a.NodeCase != nil {
+			resp := runNodeCase(*a.NodeCase)
+			fmt.Printf("replaying %s\n node case %+v: mutation %q, schedule %q\n steps: %v\n rule broken by the delivered block: %q; its hash on the active chain: %v\n", sig, *a.NodeCase, mutationNames[a.NodeCase.Mut], scheduleNames[a.NodeCase.Sched], resp.Steps, resp.Rule, resp.Connected)
+			if resp.EngineErr != "" {
+				evid.Fatalf("replay: %s", resp.EngineErr)
+			}
+			for _, v := range resp.Viol {
+				r.Violate(v.Sig, v.What, a)
+			}
+			chainkit.Cleanup()
+			os.RemoveAll(scr)
+			r.Finish(evid.Coverage{})
+		}
 		raw, err := hex.DecodeString(a.Block)
 		if err != nil {
 			evid.Fatalf("replay: %v", err)
@@ -325,6 +345,8 @@ func main() {
 		}
 	}
 
+	ns := nodeTier(r, par.Workers())
+
 	classes := map[string]interface{}{}
 	var names []string
 	for c := range k.byClass {
@@ -346,19 +368,24 @@ func main() {
 		"removing only one of the two duplicate guards of CheckBlockSanity (tx id map / spent outpoint map) does not break the property, because every duplicated transaction also duplicates its inputs")
 	os.RemoveAll(scr)
 	r.Finish(evid.Coverage{
-		"evaluations":         k.evals,
-		"distinct_nontrivial": len(k.distinct),
-		"rule":                fmt.Sprintf("transaction lists of length 1..%d (coinbase + distinct transfers, 2 variants per length), each sealed with auxpow.GenerateAuxPow + solved parent nonce at PowLimitBits 0x207fffff and accepted by CheckBlockSanity; per accepted block, with the sealed header unchanged: drop each tx, swap every pair, copy of every tx inserted at every position, every tx replaced (by a transfer / by a coinbase), coinbase moved to every position, append, repeated tails of 1..4, every merkle-root-preserving repeated tail (CVE-2012-2459 twins), every header root byte flipped; with merkle root recomputed and proof redone: root byte flips, coinbase not first, no coinbase, second coinbase / repeated coinbase at every position, copy of every tx at every position, empty list, and three still-well-formed variants that must be accepted. Oracle: header root = reference merkle root, first tx the only coinbase, ids pairwise distinct; crypto.ComputeRoot compared with the reference on every list. distinct_nontrivial = distinct (header, id list) pairs judged", maxN),
-		"exhaustive":          true,
-		"max_n":               maxN,
-		"valid_blocks":        k.byClass["valid"][0],
-		"mutants":             mutants,
-		"accepted":            k.accepted,
-		"rejected":            k.rejected,
-		"same_root_twins":     k.sameRootTwins,
-		"roots_compared":      k.rootsCompared,
-		"by_class":            classes,
-		"rejection_messages":  k.reasons,
-		"samples":             k.samples,
+		"evaluations":                           k.evals + int64(ns.cases),
+		"distinct_nontrivial":                   len(k.distinct) + ns.cases,
+		"rule":                                  fmt.Sprintf("transaction lists of length 1..%d (coinbase + distinct transfers, 2 variants per length), each sealed with auxpow.GenerateAuxPow + solved parent nonce at PowLimitBits 0x207fffff and accepted by CheckBlockSanity; per accepted block, with the sealed header unchanged: drop each tx, swap every pair, copy of every tx inserted at every position, every tx replaced (by a transfer / by a coinbase), coinbase moved to every position, append, repeated tails of 1..4, every merkle-root-preserving repeated tail (CVE-2012-2459 twins), every header root byte flipped; with merkle root recomputed and proof redone: root byte flips, coinbase not first, no coinbase, second coinbase / repeated coinbase at every position, copy of every tx at every position, empty list, and three still-well-formed variants that must be accepted. Oracle: header root = reference merkle root, first tx the only coinbase, ids pairwise distinct; crypto.ComputeRoot compared with the reference on every list. Node tier (chainkit, fresh real node per case): 3- and 4-transaction blocks with signed transfers x 14 list mutations under the sealed header x delivery schedules {parent then block; block then parent (orphan); grandchild, block, parent; block, grandchild, parent; parent, block, child}: every block on the active chain, read back from the store, must satisfy the rule, and the well-formed variants must get connected. distinct_nontrivial = distinct (header, id list) pairs judged + node cases", maxN),
+		"exhaustive":                            true,
+		"max_n":                                 maxN,
+		"valid_blocks":                          k.byClass["valid"][0],
+		"mutants":                               mutants,
+		"accepted":                              k.accepted,
+		"rejected":                              k.rejected,
+		"same_root_twins":                       k.sameRootTwins,
+		"roots_compared":                        k.rootsCompared,
+		"by_class":                              classes,
+		"rejection_messages":                    k.reasons,
+		"node_cases":                            ns.cases,
+		"node_mutants_delivered":                ns.mutantsDelivered,
+		"node_well_formed_connected":            ns.wellFormedConnected,
+		"node_orphan_schedule_cases":            ns.orphanSchedules,
+		"node_rules_broken_by_delivered_blocks": ns.rules,
+		"samples":                               append(k.samples, ns.samples...),
 	})
 }
